@@ -496,7 +496,18 @@ func (e *Engine) RunTasks() {
 		}
 	}
 	e.Stats.SimNs = int64(time.Since(start))
-	if g1 := runtime.NumGoroutine(); g1 != g0 && e.Fatal == "" {
+	g1 := runtime.NumGoroutine()
+	for i := 0; i < 200 && g1 != g0; i++ {
+		// a goroutine that has returned may still be on its way out (it counts until
+		// the runtime has retired it): give it real time; a leaked one stays
+		runtime.Gosched()
+		if i > 20 {
+			nap()
+		}
+		synctest.Wait()
+		g1 = runtime.NumGoroutine()
+	}
+	if g1 != g0 && e.Fatal == "" {
 		e.violate("goroutines", "goroutine count %d before the episode, %d after all calls returned", g0, g1)
 	}
 	// late dereferences, after the join
@@ -833,7 +844,7 @@ func (e *Engine) onArrive(t *thread, a *arrival) {
 			cs.cancel = pe.cancel
 		}
 		switch cs.spec.Kind {
-		case "timeout":
+		case "timeout", "timeoutCause":
 			cs.hasDL = true
 			cs.deadline = e.now + time.Duration(cs.spec.DNs)
 			if cs.spec.DNs <= 0 {
@@ -958,7 +969,7 @@ func (e *Engine) armStall(t *thread, site int) {
 // plan's instant is reached by the arriving thread.
 func (e *Engine) checkCancelTrigger(r *RunInfo, t *thread, a *arrival) {
 	cs := r.ctx
-	if cs == nil || cs.spec.Kind != "cancel" || cs.fired || cs.pending {
+	if cs == nil || !(cs.spec.Kind == "cancel" || cs.spec.Kind == "cancelCause" || cs.spec.Kind == "merged") || cs.fired || cs.pending {
 		return
 	}
 	sp := cs.spec
@@ -1303,5 +1314,15 @@ func (e *Engine) teardown() {
 			}
 			break
 		}
+	}
+}
+
+// nap yields the processor for a moment of REAL time (the bubble's clock is
+// fake): used only while waiting for exited goroutines to be retired.
+func nap() {
+	var ts = [1]int{}
+	for i := 0; i < 2000; i++ {
+		ts[0] += i
+		runtime.Gosched()
 	}
 }
